@@ -9,6 +9,7 @@ import (
 
 	"golang.org/x/tools/go/ssa"
 
+	"tinkverif/bounds"
 	"tinkverif/core"
 	"tinkverif/guard"
 )
@@ -567,4 +568,26 @@ func foldInt(v ssa.Value, fields map[string]int64, depth int) (int64, bool) {
 		return val, n > 0
 	}
 	return 0, false
+}
+
+// absSliceStart follows a chain of re-slicings to its base buffer and returns
+// the base and the absolute offset of v's first element in it, as a linear term.
+func absSliceStart(cx *bounds.Ctx, v ssa.Value) (ssa.Value, bounds.Lin) {
+	off := bounds.Konst(0)
+	v = guard.Strip(v)
+	for depth := 0; depth < 6; depth++ {
+		sl, ok := v.(*ssa.Slice)
+		if !ok {
+			break
+		}
+		if _, isAlloc := sl.X.(*ssa.Alloc); isAlloc && sl.Low == nil {
+			// slice of a fresh array (`new [N]T` + `[:N]`): this is the buffer itself
+			break
+		}
+		if sl.Low != nil {
+			off = off.Add(cx.Lin(sl.Low), 1)
+		}
+		v = guard.Strip(sl.X)
+	}
+	return v, off
 }
